@@ -863,6 +863,13 @@ func checkFilterCommute(e *c11Eval, p, q *gen.N) {
 		doc = []any{doc}
 	}
 	vars := h.DecodeVars(e.vars, e.useNum)
+	if (exposesOrder(&gen.Path{Root: p}) || exposesOrder(&gen.Path{Root: q})) && (hasMultiMemberObject(doc) || varsHaveMultiMember(vars)) {
+		// the conditions expand the members of an object with several members:
+		// their order is open, and with it which member an exists() or a
+		// comparison meets first - two runs need not keep the same items
+		e.c.Skip("law.commute.filter", "member-order-open")
+		return
+	}
 	pt, qt := "("+gen.SpellNode(p, nil)+")", "("+gen.SpellNode(q, nil)+")"
 	for _, op := range []string{"&&", "||"} {
 		t1 := mode + "$[*] ? (" + pt + " " + op + " " + qt + ")"
